@@ -188,15 +188,36 @@ def lean_build(prop, thorough=False, extra=(), mod=None):
         return thms, audited, checker
 
 
-def harness_build():
+# cargo feature of the harness crate that holds the module answering for a harness stream id
+FEATURE_OF = {"C01": "c01", "C14": "c01", "C05": "c01", "C10S": "c01", "C20S": "c01", "C05CLI": None}
+
+
+def harness_build(prop=None, mod=None):
+    """builds the correspondence harness against /repo's working tree.  The harness links one module per property; when the whole
+    crate no longer builds (a signature that SOME module uses has changed) the modules this property needs are built alone into
+    their own target directory: a module of another property that no longer compiles is that property's alarm, not this one's."""
+    global HBIN
     with Lock("cargo"):
         lock_src = os.path.join(REPO, "Cargo.lock")
         lock_dst = os.path.join(HARNESS, "Cargo.lock")
         if os.path.exists(lock_src) and (not os.path.exists(lock_dst)):
             open(lock_dst, "w").write(open(lock_src).read())
         rc, out = sh(["cargo", "build", "--offline"], cwd=HARNESS)
-        if rc != 0:
+        if rc == 0:
+            return
+        if prop is None:
             raise BuildError("harness-build", out[-6000:])
+        hps = [getattr(mod, "HARNESS_PROP", prop) if mod else prop]
+        if mod is not None:
+            import importlib as _il
+            for n in getattr(mod, "SUBMODULES", []):
+                hps.append(getattr(_il.import_module("vlib.props." + n), "HARNESS_PROP", prop))
+        feats = sorted(set(f for f in (FEATURE_OF.get(hp, hp.lower()) for hp in hps) if f))
+        tdir = os.path.join(HARNESS, "target-prop")
+        rc2, out2 = sh(["cargo", "build", "--offline", "--no-default-features", "--features", ",".join(feats), "--target-dir", tdir], cwd=HARNESS)
+        if rc2 != 0:
+            raise BuildError("harness-build", out2[-6000:])
+        HBIN = os.path.join(tdir, "debug", "skim-verif-harness")
 
 
 SK_TARGET = os.path.join(HARNESS, "target-sk")
@@ -407,7 +428,7 @@ def run_property(mod, tier, seed, replay=None):
         proof_err = e
     harness_err = None
     try:
-        harness_build()
+        harness_build(prop, mod)
         import importlib as _il
         needs = getattr(mod, "NEEDS_SK", False) or any(
             getattr(_il.import_module("vlib.props." + n), "NEEDS_SK", False) for n in getattr(mod, "SUBMODULES", []))
